@@ -368,6 +368,15 @@ var c17Eligibility = &histCheck{
 	},
 	postGen: func(t *rapid.T, h *History) {
 		n := rapid.IntRange(1, 3).Draw(t, "nreq")
+		// "other than the single earlier file it appends to" matters when several earlier files exist in different
+		// states (compacted with room / full): an early pass over the first file(s), more data, then requests that start higher
+		layered := rapid.IntRange(0, 2).Draw(t, "layered") == 0
+		if layered && len(h.Ops) >= 6 {
+			pos := len(h.Ops)/3 + rapid.IntRange(0, len(h.Ops)/3).Draw(t, "earlygc")
+			ops := append([]Op{}, h.Ops[:pos]...)
+			ops = append(ops, Op{Kind: "gc", Begin: 0, End: rapid.IntRange(0, 1).Draw(t, "earlyend"), Merge: rapid.Bool().Draw(t, "earlymerge")})
+			h.Ops = append(ops, h.Ops[pos:]...)
+		}
 		for i := 0; i < n; i++ {
 			op := Op{Kind: "gcreq"}
 			op.Begin = rapid.SampledFrom([]int{-1, 0, 0, 1, 2, 3, 5, 8, 100, 997, -7}).Draw(t, "begin")
@@ -377,13 +386,25 @@ var c17Eligibility = &histCheck{
 			op.Pretend = rapid.IntRange(0, 4).Draw(t, "pretend") == 0
 			op.Double = rapid.SampledFrom([]string{"", "", "", "parked", "backtoback"}).Draw(t, "double")
 			op.Force = rapid.IntRange(0, 3).Draw(t, "flushfirst") > 0
+			if layered && i == 0 {
+				op.Begin = rapid.SampledFrom([]int{2, 2, 3, 4}).Draw(t, "layeredbegin")
+				op.End = rapid.SampledFrom([]int{-1, -1, 5, 8}).Draw(t, "layeredend")
+				op.NoGCDays, op.Pretend = 0, false
+			}
 			h.Ops = append(h.Ops, op)
 			if rapid.Bool().Draw(t, "more") {
 				h.Ops = append(h.Ops, Op{Kind: "rotate", K: 0}, Op{Kind: "set", K: 0, V: h.Ops[0].V})
 			}
 		}
 	},
-	opts: func() runOpts { return runOpts{} },
+	// the same safety consequences for every pass of the history, not only for the requests appended at its end
+	opts: func() runOpts {
+		return runOpts{afterGC: func(r *histRunner, bid, begin, end int, merge bool, before *gcBefore) error {
+			r.label("pass_inventory_checked")
+			_, err := gcInventorySafety(r, r.store.buckets[bid], begin, end, before)
+			return err
+		}}
+	},
 	nontrivial: func(r *histRunner) bool {
 		return r.labels["range_resolved"] || r.labels["double_request_parked"] || r.labels["double_request_backtoback"]
 	},
@@ -392,3 +413,33 @@ var c17Eligibility = &histCheck{
 func TestVerif_C17_Eligibility(t *testing.T) { c17Eligibility.check(t) }
 
 func init() { c17Eligibility.register() }
+
+// The inventory consequences alone, over the general GC histories of C03/C18 (more files, repeated passes, restarts):
+// whatever range a pass was given, the head file and every existing file outside the range stay byte-identical,
+// except one earlier file that may only grow.
+var c17Inventory = &histCheck{
+	property: "C17",
+	name:     "TestVerif_C17_PassInventory",
+	profile: func() *genProfile {
+		p := &genProfile{minOps: 8, maxOps: 60, reopen: true, gc: true, tinyFiles: true, maxKeys: 10}
+		if thorough() {
+			p.maxOps = 140
+		}
+		return p
+	},
+	opts: func() runOpts {
+		return runOpts{afterGC: func(r *histRunner, bid, begin, end int, merge bool, before *gcBefore) error {
+			r.label("pass_inventory_checked")
+			if begin >= 2 {
+				r.label("pass_from_file>=2")
+			}
+			_, err := gcInventorySafety(r, r.store.buckets[bid], begin, end, before)
+			return err
+		}}
+	},
+	nontrivial: func(r *histRunner) bool { return r.labels["pass_inventory_checked"] && r.labels["gc_released"] },
+}
+
+func TestVerif_C17_PassInventory(t *testing.T) { c17Inventory.check(t) }
+
+func init() { c17Inventory.register() }
